@@ -13,7 +13,7 @@ echo "$dout" | grep -E "^VIOLATION"
 [ $drc -eq 2 ] && [ $rc -eq 0 ] && { echo "HARNESS-ERROR debug-profile run failed" >&2; exit 2; }
 dcalls=$(sed -n 's/.*"parse_calls_total": \([0-9]*\).*/\1/p' "$tmp" | head -1); rm -f "$tmp"
 # Miri batch (crate as is: SWAR under Miri)
-mout=$(MIRI_TIMEOUT=$([ "$tier" = thorough ] && echo 3000 || echo 400) run_miri "$VERIF_DIR/sim" "" "" miri C01 0 "$mruns" "$SEED")
+mout=$(MIRI_TIMEOUT=$([ "$tier" = thorough ] && echo 6000 || echo 1500) run_miri "$VERIF_DIR/sim" "" "" miri C01 0 "$mruns" "$SEED")
 mline=$(echo "$mout" | grep -E "^MIRI-CONN" | head -1)
 echo "  [C01 miri] $mline"
 if echo "$mout" | grep -qE "^error: Undefined Behavior|^MIRI-VIOLATION"; then
